@@ -243,4 +243,18 @@ theorem z_pr_select_refines (cr : List ℝ → List ℝ × List ℝ) (T P : ℝ)
   simp only [z, s, c, EosFullPy.z_pr, hcr, selectZ, Num.real_zero, Num.real_ofSci]
   simp [List.range', List.foldl, h00]
 
+theorem zipWith_div_map_mul (c : ℝ) (m M : List ℝ) :
+    List.zipWith (fun x y => x / y) (m.map fun x => c * x) M = (List.zipWith (fun x y => x / y) m M).map fun x => c * x := by
+  induction m generalizing M with
+  | nil => simp
+  | cons a as ih =>
+    cases M with
+    | nil => simp
+    | cons b bs => simp [ih, mul_div_assoc]
+
+theorem sum_map_mul (c : ℝ) (l : List ℝ) : (l.map fun x => c * x).sum = c * l.sum := by
+  induction l with
+  | nil => simp
+  | cons a as ih => simp [ih, mul_add]
+
 end TamocV.Lemmas.EosRefine
